@@ -104,6 +104,8 @@ const ATTR_NAMES: &[&str] = &[
     "id", "class", "style", "key", "ref", "title", "onClick", "onFoo", "onUpdate:modelValue",
     "type", "value", "data-x", "aria-label", "once", "only", "o", "on", "nativeOn", "model",
     "innerHTML", "xlink:href", "a:b", "modelValue", "_", "$", "is", "v1", "v_size", "v$", "v",
+    // names that differ from another one only in case
+    "Title", "onclick", "ID", "Class",
 ];
 const DIR_NAMES: &[&str] = &[
     "v-show", "v-foo", "v-foo-bar", "vFoo", "vFooBar", "v-html", "v-text", "v-model",
@@ -1016,7 +1018,7 @@ impl<'a, 'b> G<'a, 'b> {
             self.f.ctx("defineComponent-degenerate-arguments");
             return match self.c.pick(3) {
                 0 => format!("export const {name} = {callee}();"),
-                1 => format!("export const {name} = {callee}(...xs);"),
+                1 => format!("export const {name} = {callee}(...xs{});", self.c.choose(&["", ", o", ", o, o"])),
                 _ => format!("export const {name} = {callee}(o, o, o);"),
             };
         }
